@@ -296,8 +296,10 @@ func (n *NodeProcessor) SendWrite() (int, error) {
 				n.Logger.Error("Failed to truncate queue", zap.Uint64("node", n.nodeID), zap.Uint64("shardID", n.shardID), zap.Error(err))
 			}
 		} else {
-			// Try to skip it.
-			if err := n.queue.Advance(); err != nil {
+			// The head segment has no unread block: move on to the next segment if
+			// there is one. Advance must not be used here: a block appended since
+			// Current looked would be skipped without having been sent.
+			if err := n.queue.advanceSegment(); err != nil {
 				n.Logger.Error("Failed to advance queue", zap.Uint64("node", n.nodeID), zap.Uint64("shardID", n.shardID), zap.Error(err))
 			}
 		}
